@@ -84,9 +84,16 @@ def template_like_script():
     ).map(build)
 
 
-def script(max_tokens=6):
-    return st.one_of(st.lists(token(), max_size=max_tokens), st.lists(token(), max_size=max_tokens),
-                     st.lists(token(), max_size=max_tokens), template_like_script())
+def script(max_tokens=6, templates=False):
+    plain = st.lists(token(), max_size=max_tokens)
+    if not templates:
+        return plain
+    return st.one_of(plain, plain, plain, template_like_script())
+
+
+def wire_script():
+    """scripts of transactions generated for the wire-codec checks (C04): token lists and template look-alikes"""
+    return script(templates=True)
 
 
 def tiny_script():
@@ -135,8 +142,8 @@ def transactions(draw, allow_big_counts=True):
         if segwit:
             ins[0]["witness"] = draw(witness_stack().filter(lambda w: len(w) > 0))
     else:
-        ins = draw(st.lists(tx_in(witness=segwit), min_size=1, max_size=5))
-        outs = draw(st.lists(tx_out(), min_size=0, max_size=5))
+        ins = draw(st.lists(tx_in(wire_script, witness=segwit), min_size=1, max_size=5))
+        outs = draw(st.lists(tx_out(wire_script), min_size=0, max_size=5))
         if segwit and all(len(i["witness"]) == 0 for i in ins):
             ins[0]["witness"] = draw(witness_stack().filter(lambda w: len(w) > 0))
     if not segwit:
